@@ -5,6 +5,7 @@ package main
 // driver, executing the converters on generated values and reading back canonical results.
 
 import (
+	"time"
 	"bufio"
 	"bytes"
 	"fmt"
@@ -267,23 +268,38 @@ func runGoverter(root string, convs []*ConvSpec, globals []string) (map[string]*
 			}
 			continue
 		}
-		func() {
+		// generation runs under recover and with a deadline: a generator that loops cannot be stopped from inside the
+		// process, so the goroutine is abandoned (it keeps one core busy until the stream ends) and the converter is
+		// reported as class 2 "did not terminate"
+		done := make(chan *convOutcome, 1)
+		conv := cs[i]
+		go func() {
+			oo := &convOutcome{}
 			defer func() {
 				if r := recover(); r != nil {
-					o.Class, o.Panic = 1, fmt.Sprint(r)
+					oo.Class, oo.Panic = 1, fmt.Sprint(r)
 				}
+				done <- oo
 			}()
-			files, err := generator.Generate([]*config.Converter{cs[i]}, generator.Config{BuildConstraint: "!goverter"})
+			files, err := generator.Generate([]*config.Converter{conv}, generator.Config{BuildConstraint: "!goverter"})
 			if err != nil {
-				o.Msg = err.Error()
-				o.Class = diagClass(o.Msg)
+				oo.Msg = err.Error()
+				oo.Class = diagClass(oo.Msg)
 				return
 			}
-			o.OK, o.Files = true, files
+			oo.OK, oo.Files = true, files
 		}()
+		select {
+		case oo := <-done:
+			*o = *oo
+		case <-time.After(generateDeadline):
+			o.Class, o.Msg = 2, fmt.Sprintf("generation did not terminate within %s", generateDeadline)
+		}
 	}
 	return out, nil
 }
+
+const generateDeadline = 45 * time.Second
 
 type runCase struct {
 	ID     int
